@@ -29,6 +29,22 @@ type Gen2[T, U any] struct {
 
 type Err interface{ error }
 
+// defined types whose underlying type is not a struct or a scalar: a printer that goes by the kind before it goes by
+// the name loses them
+type ItemRef *Item
+
+type Handle *int
+
+type Items []Item
+
+type Index map[string]*Item
+
+type Hook func(Item) error
+
+type Pipe chan Item
+
+type Quad [4]Dur
+
 // Sub and In are the workhorses of the value-literal checks.
 type Sub struct {
 	A int
@@ -66,4 +82,3 @@ type In struct {
 	MS map[string]*Sub
 	AS [3]int
 }
-
